@@ -137,12 +137,18 @@ NPAR = {"dampcos": 2, "expdec": 1, "rational": 1, "gauss": 2, "mono": 2, "affine
 
 
 def parse_ann(tokens):
-    """tokens after '#': kind then factors"""
+    """tokens after '#': kind then factors; kinds ending in '@' carry 'k imethod ip x0' (the factor written through an integral) first"""
     kind = tokens[0]; facs = []; k = 1
+    if kind.endswith("@"): k = 5
     while k < len(tokens):
         n = tokens[k]; m = NPAR[n]
         facs.append(Fac(n, *[float.fromhex(x) for x in tokens[k + 1:k + 1 + m]])); k += 1 + m
     return kind, facs
+
+
+def ann_re(tokens):
+    """(k, x0, imethod, ip) of a kind ending in '@'"""
+    return int(tokens[1]), float.fromhex(tokens[4]), tokens[2], int(tokens[3])
 
 
 def rand_fac(rng, lo, hi, positive=False, poly=False, affine=False):
@@ -162,11 +168,45 @@ def rand_fac(rng, lo, hi, positive=False, poly=False, affine=False):
     return Fac("expdec", 1.0)
 
 
-def product_text(facs, vars_):
+def product_text(facs, vars_, re=None):
+    """product of the factor texts; re = (k, x0, imethod, ip): factor k is written through an integral (re-entrant user function)"""
     ts = [f.text(v) for f, v in zip(facs, vars_)]
+    if re is not None: ts[re[0]] = f"+ c {hx(facs[re[0]].g(re[1]))} v 3"
     t = ts[-1]
     for s in reversed(ts[:-1]): t = f"* {s} {t}"
+    if re is not None:
+        k, x0, im, ip = re
+        t += f" @ {im} {ip} c {hx(x0)} {vars_[k]} {facs[k].dtext('v 3')}"
     return t
+
+
+def radial_text(g, re=None):
+    """g(|vector|); re = (x0, imethod, ip): g(n) written as g(x0) + integral of g' from x0 to n"""
+    if re is None: return g.text(NORM)
+    x0, im, ip = re
+    return f"+ c {hx(g.g(x0))} v 3 @ {im} {ip} c {hx(x0)} {NORM} {g.dtext('v 3')}"
+
+
+def re_ann(re): return f"{re[0]} {re[2]} {re[3]} {hx(re[1])}"          # k imethod ip x0
+
+
+def inner_of(fex):
+    """(inner method, inner parameter) of a re-entrant user function, else None"""
+    t = fex.split()
+    if "@" not in t: return None
+    k = t.index("@"); return t[k + 1], int(t[k + 2])
+
+
+def pick_inner(rng, f, x0, lo, hi, outer_method=None, cheap=False):
+    """an inner method and parameter for the factor f written as f(x0) + integral_{x0}^{v} f'; Adaptive-Simpson only where f' keeps one sign
+    (its tolerance is relative to the Simpson estimate of the integral itself)"""
+    _, onesign = f.dl1(min(x0, lo, hi), max(x0, lo, hi), want_sign=True)
+    ms = [m for m in METHODS if (m != "Adaptive-Simpson" or onesign) and not (cheap and m in ("Tanh-Sinh", "Trapezoidal"))]
+    im = rng.choice(ms)
+    if im == "Gauss-Legendre_2": ip = rng.choice([0, 20, 24, 31, 40])
+    elif im == "Gauss-Kronrod": ip = rng.choice([0, 8, 15])
+    else: ip = rng.choice([0, 0, 7])
+    return im, ip
 
 
 def limits(rng, axis, orient):
@@ -308,6 +348,261 @@ def generate(rng, tier):
                     txt = f"+ * c {hx(co[0])} x + * c {hx(co[1])} y + * c {hx(co[2])} z c {hx(co[3])}"
                     cs.append(Case(f"spherical {method} {p} {hx(r1)} {hx(r2)} {hx(c1)} {hx(c2)} {hx(f1)} {hx(f2)} {txt} # sphd " + " ".join(hx(x) for x in co),
                                    ("spherical", method, "sub", "directional")))
+    cs += gen_reentrant(rng, big, P)
+    cs += gen_ties(rng, big, P)
+    cs += gen_sharp(rng, big)
+    return cs
+
+
+# ---- user functions that are themselves defined through an integral: the library is re-entered from inside its own integrand,
+#      every method name at either level, equal and different method_parameters at the two levels (both orders), reversed and
+#      equal inner limits (the anchor x0 lies inside, at an end of, or outside the outer interval)
+def gen_reentrant(rng, big, P):
+    cs = []
+
+    def anchor(a, b):
+        lo, hi = min(a, b), max(a, b)
+        return rng.choice([lo, hi, 0.5 * (lo + hi), rng.uniform(lo, hi), lo - rng.uniform(0.05, 0.4), hi + rng.uniform(0.05, 0.4)])
+
+    def fac_for(method, a, b):
+        return rand_fac(rng, a, b, positive=(method == "Adaptive-Simpson"), affine=(method == "Trapezoidal" and rng.random() < 0.5))
+
+    # 1-D: all 36 pairs (outer, inner)
+    for rep in range(3 if big else 1):
+        for method in METHODS:
+            for im in METHODS:
+                for _ in range(20):
+                    a, b = limits(rng, rng.randrange(3), rng.random() < 0.6)
+                    if rng.random() < 0.3: a, b = a - 3.0, b - 3.0
+                    f = fac_for(method, a, b); x0 = anchor(a, b)
+                    _, onesign = f.dl1(min(x0, a, b), max(x0, a, b), want_sign=True)
+                    if im != "Adaptive-Simpson" or onesign: break
+                else: continue
+                p = P(method, rng.random() < 0.5)
+                ip = {"Gauss-Legendre_2": rng.choice([0, 20, 24, 31, 40]), "Gauss-Kronrod": rng.choice([0, 8, 15])}.get(im, rng.choice([0, 7]))
+                re = (0, x0, im, ip)
+                cs.append(Case(f"named1d {method} {p} {hx(a)} {hx(b)} {product_text([f], 'x', re)} # 1d@ {re_ann(re)} {f.ann()}", ("named1d", "reentrant", method, "inner-" + im)))
+    # the same rule at both levels with different numbers of points, larger outside and larger inside; default against explicit
+    for p, ip in [(0, 20), (40, 20), (20, 40), (24, 0), (0, 31), (31, 31), (64, 24), (21, 20)] + ([(n, m) for n in (20, 30, 50) for m in (22, 30, 48)] if big else []):
+        for orient in (True, False):
+            a, b = limits(rng, rng.randrange(3), orient)
+            if rng.random() < 0.3: a, b = a - 3.0, b - 3.0
+            f = rand_fac(rng, a, b); re = (0, anchor(a, b), "Gauss-Legendre_2", ip)
+            cs.append(Case(f"named1d Gauss-Legendre_2 {p} {hx(a)} {hx(b)} {product_text([f], 'x', re)} # 1d@ {re_ann(re)} {f.ann()}", ("named1d", "reentrant", "Gauss-Legendre_2", "inner-Gauss-Legendre_2", "points-differ")))
+    for p, ip in [(0, 8), (8, 0), (2, 15)]:
+        a, b = limits(rng, rng.randrange(3), rng.random() < 0.5)
+        f = rand_fac(rng, a, b); re = (0, anchor(a, b), "Gauss-Kronrod", ip)
+        cs.append(Case(f"named1d Gauss-Kronrod {p} {hx(a)} {hx(b)} {product_text([f], 'x', re)} # 1d@ {re_ann(re)} {f.ann()}", ("named1d", "reentrant", "Gauss-Kronrod", "inner-Gauss-Kronrod", "points-differ")))
+    # 2-D / 3-D: one factor (any position) written through an integral
+    for rep in range(4 if big else 1):
+        for method in METHODS:
+            for dd in (2, 3):
+                if dd == 3 and method in ("Tanh-Sinh", "Trapezoidal") and not big: continue
+                for _ in range(2 if dd == 2 else 1):
+                    lims = [limits(rng, k, rng.random() < 0.6) for k in range(dd)]
+                    facs = [fac_for(method, *lims[k]) if method != "Trapezoidal" else rand_fac(rng, *lims[k], affine=True) for k in range(dd)]
+                    k = rng.randrange(dd); x0 = anchor(*lims[k])
+                    im, ip = pick_inner(rng, facs[k], x0, *lims[k], cheap=(dd == 3))
+                    if method == "Gauss-Legendre_2" and rng.random() < 0.7: im, ip = "Gauss-Legendre_2", rng.choice([20, 24, 31, 40])
+                    p = P(method, rng.random() < 0.5)
+                    if method == "Gauss-Legendre_2" and p > 31 and dd == 3: p = 24
+                    re = (k, x0, im, ip)
+                    flat = " ".join(hx(x) for lm in lims for x in lm)
+                    cs.append(Case(f"nested{dd}d {method} {p} {flat} {product_text(facs, 'xyz'[:dd], re)} # nd@ {re_ann(re)} " + " ".join(f.ann() for f in facs),
+                                   (f"nested{dd}d", "reentrant", method, "inner-" + im)))
+    # spherical: the radial profile written through an integral up to the norm of the vector
+    for method in METHODS:
+        if method in ("Tanh-Sinh", "Trapezoidal") and not big: continue
+        for _ in range(3 if big else 1):
+            r1 = rng.uniform(0.1, 1.0); r2 = r1 + rng.uniform(0.5, 1.5)
+            if rng.random() < 0.4: r1, r2 = r2, r1
+            c1 = rng.uniform(-1.0, 0.5); c2 = rng.uniform(c1 + 0.2, 1.0); f1 = rng.uniform(0.0, 4.0); f2 = rng.uniform(f1 + 0.3, 6.28)
+            if rng.random() < 0.5: c1, c2 = c2, c1
+            if rng.random() < 0.5: f1, f2 = f2, f1
+            g = rng.choice([Fac("expdec", rng.uniform(0.3, 1.5)), Fac("rational", rng.uniform(0.1, 2.0)), Fac("gauss", rng.uniform(0.5, 3.0), 0.0)])
+            x0 = anchor(r1, r2)
+            if x0 < 0.0: x0 = 0.0
+            im, ip = pick_inner(rng, g, x0, r1, r2, cheap=True)
+            if method == "Gauss-Legendre_2": im, ip = "Gauss-Legendre_2", rng.choice([20, 40])
+            p = P(method, rng.random() < 0.5)
+            if method == "Gauss-Legendre_2" and p > 31: p = 24
+            re = (x0, im, ip)
+            cs.append(Case(f"spherical {method} {p} {hx(r1)} {hx(r2)} {hx(c1)} {hx(c2)} {hx(f1)} {hx(f2)} {radial_text(g, re)} # sphr@ 0 {im} {ip} {hx(x0)} {g.ann()}",
+                           ("spherical", "reentrant", method, "inner-" + im)))
+    return cs
+
+
+# ---- limits of different axes that coincide or nearly coincide (adjoining cells of a grid, a box that starts where another range
+#      ends, a cosine limit equal to an azimuth limit): every pair of limit arguments belonging to different axes, exact ties and a
+#      geometric ladder of relative distances
+def gen_ties(rng, big, P):
+    cs = []
+    ladder = [0.0, 0.0, "ulp+", "ulp-", 1e-15, 1e-12, 1e-9, 1e-6] if big else [0.0, 0.0, 0.0, rng.choice(["ulp+", "ulp-"]), rng.choice([1e-15, 1e-12, 1e-9, 1e-6])]
+
+    def near(v, step):
+        if step == 0.0: return v
+        if step == "ulp+": return math.nextafter(v, math.inf)
+        if step == "ulp-": return math.nextafter(v, -math.inf)
+        return v * (1.0 + rng.choice([-1, 1]) * step)
+
+    count = 0
+    for dd in (2, 3):
+        pairs = [(i, j) for i in range(2 * dd) for j in range(2 * dd) if i // 2 != j // 2]        # ordered: j is moved onto i
+        if not big: pairs = [(i, j) for (i, j) in pairs if i < j] if dd == 2 else pairs
+        for (i, j) in pairs:
+            for step in (ladder if big else [rng.choice(ladder)]):
+                count += 1
+                method = METHODS[count % len(METHODS)]
+                if dd == 3 and method in ("Tanh-Sinh", "Trapezoidal") and not big: method = rng.choice(["Gauss-Legendre", "Gauss-Kronrod", "Gauss-Legendre_2"])
+                lims = [list(limits(rng, k, rng.random() < 0.6)) for k in range(dd)]
+                target = near(lims[i // 2][i % 2], step)
+                shift = target - lims[j // 2][j % 2]
+                other = lims[j // 2][1 - j % 2] + shift
+                lims[j // 2][j % 2] = target; lims[j // 2][1 - j % 2] = other
+                if method == "Trapezoidal": facs = [rand_fac(rng, *lims[k], affine=True) for k in range(dd)]
+                else: facs = [rand_fac(rng, *lims[k], positive=(method == "Adaptive-Simpson")) for k in range(dd)]
+                p = P(method, rng.random() < 0.4)
+                if method == "Gauss-Legendre_2" and p > 31 and dd == 3: p = 24
+                flat = " ".join(hx(x) for lm in lims for x in lm)
+                cs.append(Case(f"nested{dd}d {method} {p} {flat} {product_text(facs, 'xyz'[:dd])} # nd " + " ".join(f.ann() for f in facs),
+                               (f"nested{dd}d", "cross-axis-tie" if step == 0.0 else "cross-axis-near-tie", method, "pos%d=pos%d" % (j, i))))
+    # spherical: r-cos, r-phi, cos-phi
+    rng_of = [(0.1, 2.5), (-1.0, 1.0), (0.0, 2 * math.pi)]
+    for i in range(6):
+        for j in range(6):
+            if i // 2 == j // 2 or (not big and rng.random() < 0.5): continue
+            for step in (ladder if big else [rng.choice(ladder)]):
+                count += 1
+                method = METHODS[count % len(METHODS)]
+                if method in ("Tanh-Sinh", "Trapezoidal") and not big: method = rng.choice(["Gauss-Legendre", "Gauss-Kronrod", "Gauss-Legendre_2", "Adaptive-Simpson"])
+                ai, aj = i // 2, j // 2
+                lo = max(rng_of[ai][0], rng_of[aj][0], 0.05); hi = min(rng_of[ai][1], rng_of[aj][1]) - 1e-3
+                v = rng.choice([rng.uniform(lo, hi), 0.5, 1.0 if hi > 0.99 else 0.25, 0.0 if 0 not in (ai, aj) else 0.75])
+                lim = [None] * 6
+                lim[i] = v; lim[j] = near(v, step)
+                if 1 in (ai, aj): lim[2 * 1 + (i if ai == 1 else j) % 2] = min(1.0, max(-1.0, lim[2 * 1 + (i if ai == 1 else j) % 2]))
+                if 2 in (ai, aj) and lim[4 + (i if ai == 2 else j) % 2] < 0.0: lim[4 + (i if ai == 2 else j) % 2] = 0.0
+                for pos in (i, j):
+                    ax = pos // 2; o = 2 * ax + 1 - pos % 2; w = lim[pos]
+                    if ax == 0: lim[o] = w + rng.uniform(0.5, 1.5) if (w < 0.6 or rng.random() < 0.5) else w - rng.uniform(0.3, 0.5)
+                    elif ax == 1:
+                        while True:
+                            u = rng.uniform(-1.0, 1.0)
+                            if abs(u - w) >= 0.2: break
+                        lim[o] = rng.choice([u, u, -1.0 if w > -0.8 else u, 1.0 if w < 0.8 else u])
+                    else:
+                        while True:
+                            u = rng.uniform(0.0, 2 * math.pi)
+                            if abs(u - w) >= 0.3: break
+                        lim[o] = u
+                ax3 = 3 - ai - aj
+                if ax3 == 0:
+                    r1 = rng.uniform(0.0, 1.0); lim[0], lim[1] = (r1, r1 + rng.uniform(0.5, 1.5)) if rng.random() < 0.6 else (r1 + rng.uniform(0.5, 1.5), r1)
+                elif ax3 == 1:
+                    c1 = rng.uniform(-1.0, 0.6); c2 = rng.uniform(c1 + 0.2, 1.0); lim[2], lim[3] = (c1, c2) if rng.random() < 0.6 else (c2, c1)
+                else:
+                    f1 = rng.uniform(0.05, 5.0); f2 = rng.uniform(f1 + 0.3, min(f1 + 3.0, 6.2)); lim[4], lim[5] = (f1, f2) if rng.random() < 0.6 else (f2, f1)
+                kind = rng.choice(["expdec", "rational", "gauss", "mono"])
+                g = {"expdec": Fac("expdec", rng.uniform(0.3, 1.5)), "rational": Fac("rational", rng.uniform(0.1, 2.0)),
+                     "gauss": Fac("gauss", rng.uniform(0.5, 3.0), 0.0), "mono": Fac("mono", rng.choice([1.0, 2.0]), rng.choice([0, 1]))}[kind]
+                p = P(method, rng.random() < 0.4)
+                if method == "Gauss-Legendre_2" and p > 31: p = 24
+                cs.append(Case("spherical %s %d %s %s # sphr %s" % (method, p, " ".join(hx(x) for x in lim), radial_text(g), g.ann()),
+                               ("spherical", "cross-axis-tie" if step == 0.0 else "cross-axis-near-tie", method, "pos%d=pos%d" % (j, i))))
+    return cs
+
+
+# ---- requests in which the explicit method_parameter matters: sharply peaked (still analytic) integrands that the default number of
+#      points does not resolve and the requested number does, at every entry point; and small explicit parameters
+_KMAX = {}
+
+
+def gl_kmax(n):
+    """largest K = k h^2 for which the classical bound of n-point Gauss quadrature for exp(-k (t-mu)^2) on an interval of half width h
+    (64 M rho^-2n / (15 (1 - rho^-2)), M = exp(K ((rho - 1/rho)/2)^2) on the Bernstein ellipse rho, minimised over rho) is below
+    1e-11 of the integral of the Gaussian"""
+    if n in _KMAX: return _KMAX[n]
+
+    def bound(K):
+        best = math.inf; rho = 1.05
+        while rho < 40.0:
+            e = K * ((rho - 1 / rho) / 2) ** 2 - 2 * n * math.log(rho)
+            if e < 700: best = min(best, 64 / 15 * math.exp(e) / (1 - rho ** -2))
+            rho *= 1.01
+        return best / (0.5 * math.sqrt(math.pi / K))
+    lo, hi = 0.1, 5000.0
+    for _ in range(50):
+        mid = 0.5 * (lo + hi)
+        if bound(mid) <= 1e-11: lo = mid
+        else: hi = mid
+    _KMAX[n] = lo
+    return lo
+
+
+def gen_sharp(rng, big):
+    cs = []
+
+    def sharp_fac(a, b, K):
+        lo, hi = min(a, b), max(a, b); h = 0.5 * (hi - lo)
+        return Fac("gauss", K / (h * h), 0.5 * (lo + hi) + rng.uniform(-0.3, 0.3) * h)
+
+    def smooth(a, b): return rand_fac(rng, a, b)
+    reps = 3 if big else 1
+    for _ in range(reps):
+        # Gauss-Legendre_2 with enough points for the peak (accuracy claim applies), every entry point, the peak on any axis
+        for n in (64, 96, 48) if not big else (48, 64, 96, 128):
+            K = rng.uniform(0.6, 1.0) * gl_kmax(n)
+            for op in ("named1d", "nested2d", "nested3d", "spherical"):
+                if op == "nested3d" and n > 64 and not big: continue
+                if op == "spherical":
+                    if n == 48 and not big: continue
+                    r1 = rng.uniform(0.3, 0.8); r2 = r1 + rng.uniform(0.6, 1.2)
+                    g = sharp_fac(r1, r2, K)
+                    if rng.random() < 0.5: r1, r2 = r2, r1
+                    if rng.random() < 0.5: c1, c2, f1, f2 = -1.0, 1.0, 0.0, 2 * math.pi
+                    else:
+                        c1 = rng.uniform(-1.0, 0.5); c2 = rng.uniform(c1 + 0.2, 1.0); f1 = rng.uniform(0.0, 4.0); f2 = rng.uniform(f1 + 0.3, 6.28)
+                        if rng.random() < 0.5: c1, c2 = c2, c1
+                        if rng.random() < 0.5: f1, f2 = f2, f1
+                    cs.append(Case(f"spherical Gauss-Legendre_2 {n} {hx(r1)} {hx(r2)} {hx(c1)} {hx(c2)} {hx(f1)} {hx(f2)} {radial_text(g)} # sphr {g.ann()}",
+                                   ("spherical", "Gauss-Legendre_2", "sharp", "p")))
+                    continue
+                dd = dims(op)
+                lims = [limits(rng, k, rng.random() < 0.6) for k in range(dd)]
+                ks = rng.randrange(dd)
+                facs = [sharp_fac(*lims[k], K) if k == ks else smooth(*lims[k]) for k in range(dd)]
+                flat = " ".join(hx(x) for lm in lims for x in lm)
+                cs.append(Case(f"{op} Gauss-Legendre_2 {n} {flat} {product_text(facs, 'xyz'[:dd])} # {'1d' if dd == 1 else 'nd'} " + " ".join(f.ann() for f in facs),
+                               (op, "Gauss-Legendre_2", "sharp", "p")))
+        # Gauss-Kronrod with small and large recursion depths on peaks that need several bisections: compared with the direct call
+        for p in (1, 2, 3, 8, 15):
+            K = math.exp(rng.uniform(math.log(150.0), math.log(3000.0)))
+            for op in ("named1d", "nested2d", "spherical") + (("nested3d",) if big else ()):
+                if op == "spherical":
+                    r1 = rng.uniform(0.3, 0.8); r2 = r1 + rng.uniform(0.6, 1.2)
+                    g = sharp_fac(r1, r2, K)
+                    if rng.random() < 0.5: r1, r2 = r2, r1
+                    c1 = rng.uniform(-1.0, 0.5); c2 = rng.uniform(c1 + 0.2, 1.0); f1 = rng.uniform(0.0, 4.0); f2 = rng.uniform(f1 + 0.3, 6.28)
+                    cs.append(Case(f"spherical Gauss-Kronrod {p} {hx(r1)} {hx(r2)} {hx(c1)} {hx(c2)} {hx(f1)} {hx(f2)} {radial_text(g)} # sphcorr {g.ann()}",
+                                   ("spherical", "Gauss-Kronrod", "sharp", "depth")))
+                    continue
+                dd = dims(op)
+                lims = [limits(rng, k, rng.random() < 0.6) for k in range(dd)]
+                ks = rng.randrange(dd)
+                facs = [sharp_fac(*lims[k], K) if k == ks else smooth(*lims[k]) for k in range(dd)]
+                flat = " ".join(hx(x) for lm in lims for x in lm)
+                cs.append(Case(f"{op} Gauss-Kronrod {p} {flat} {product_text(facs, 'xyz'[:dd])} # {'1dcorr' if dd == 1 else 'ndcorr'} " + " ".join(f.ann() for f in facs),
+                               (op, "Gauss-Kronrod", "sharp", "depth")))
+        # small explicit Gauss-Legendre_2 orders through the spherical overload (model and direct call)
+        for n in (1, 2, 3, 5, 8):
+            r1 = rng.uniform(0.0, 1.0); r2 = r1 + rng.uniform(0.5, 1.5)
+            if rng.random() < 0.5: r1, r2 = r2, r1
+            c1 = rng.uniform(-1.0, 0.5); c2 = rng.uniform(c1 + 0.2, 1.0); f1 = rng.uniform(0.0, 4.0); f2 = rng.uniform(f1 + 0.3, 6.28)
+            if rng.random() < 0.5: c1, c2 = c2, c1
+            if rng.random() < 0.5: f1, f2 = f2, f1
+            g = rng.choice([Fac("expdec", rng.uniform(0.3, 1.5)), Fac("rational", rng.uniform(0.1, 2.0)), Fac("gauss", rng.uniform(0.5, 3.0), 0.0)])
+            cs.append(Case(f"spherical Gauss-Legendre_2 {n} {hx(r1)} {hx(r2)} {hx(c1)} {hx(c2)} {hx(f1)} {hx(f2)} {radial_text(g)} # sphcorr {g.ann()}",
+                           ("spherical", "Gauss-Legendre_2", "small-n")))
     return cs
 
 
@@ -321,26 +616,43 @@ def parse_case(line):
     return op, method, p, lim, fex, ann.split() if ann else []
 
 
+CORR = ("1dcorr", "ndcorr", "sphcorr")        # compared with the model / the direct call only (no accuracy claim)
+
+
 def exact_and_scale(op, lim, fex, ann):
-    """closed-form value of the integral and its natural scale (integral of |integrand|), or None when the case carries no annotation;
-    the annotation is checked against the integrand text of the case"""
+    """(closed-form value of the integral, its natural scale = integral of |integrand|, extra slack for a user function that is
+    itself computed by a quadrature), or None when the case carries no annotation; the annotation is checked against the text of the case"""
     if not ann: return None
     kind = ann[0]
-    if kind in ("1d", "1dcorr", "nd", "ndcorr"):
+    if kind in ("1d", "1dcorr", "nd", "ndcorr", "1d@", "nd@"):
         _, facs = parse_ann(ann)
         vars_ = "xyz"[:len(facs)]
-        if product_text(facs, vars_) != fex or 2 * len(facs) != len(lim): return None
+        re = ann_re(ann) if kind.endswith("@") else None
+        if product_text(facs, vars_, re) != fex or 2 * len(facs) != len(lim): return None
         ex, sc = 1.0, 1.0
         for k, f in enumerate(facs):
             a, b = lim[2 * k], lim[2 * k + 1]
             ex *= f.integral(a, b); sc *= f.l1(a, b)
-        return ex, sc
-    if kind == "sphr":
+        extra = 0.0
+        if re:
+            k, x0, im, ip = re
+            a, b = lim[2 * k], lim[2 * k + 1]
+            extra = acc_of(im) * facs[k].dl1(min(x0, a, b), max(x0, a, b)) * abs(b - a)
+            for j, f in enumerate(facs):
+                if j != k: extra *= f.l1(lim[2 * j], lim[2 * j + 1])
+        return ex, sc, extra
+    if kind in ("sphr", "sphcorr", "sphr@"):
         _, facs = parse_ann(ann); g = facs[0]
-        if g.text(NORM) != fex: return None
+        re = ann_re(ann)[1:] if kind.endswith("@") else None
+        if radial_text(g, re) != fex: return None
         r1, r2, c1, c2, f1, f2 = lim
         rad = g.R2(r2) - g.R2(r1)
-        return (c2 - c1) * (f2 - f1) * rad, abs((c2 - c1) * (f2 - f1) * rad)
+        ang = abs((c2 - c1) * (f2 - f1))
+        lo, hi = min(r1, r2), max(r1, r2); n = 256; h = (hi - lo) / n            # integral of r^2 |g|
+        sc = sum((1 if k in (0, n) else 4 if k % 2 else 2) * (lo + k * h) ** 2 * abs(g.g(lo + k * h)) for k in range(n + 1)) * h / 3
+        extra = 0.0
+        if re: extra = acc_of(re[1]) * g.dl1(min(re[0], lo), max(re[0], hi)) * abs(r2 ** 3 - r1 ** 3) / 3 * ang
+        return (c2 - c1) * (f2 - f1) * rad, ang * sc, extra
     if kind == "sphd":
         co = [float.fromhex(x) for x in ann[1:5]]
         if f"+ * c {hx(co[0])} x + * c {hx(co[1])} y + * c {hx(co[2])} z c {hx(co[3])}" != fex: return None
@@ -350,7 +662,7 @@ def exact_and_scale(op, lim, fex, ann):
         ex = r4 * (co[0] * (S(c2) - S(c1)) * (math.sin(f2) - math.sin(f1)) + co[1] * (S(c2) - S(c1)) * (math.cos(f1) - math.cos(f2))
                    + co[2] * (c2 * c2 - c1 * c1) / 2 * (f2 - f1)) + co[3] * r3 * (c2 - c1) * (f2 - f1)
         sc = abs(r4) * (abs(co[0]) + abs(co[1]) + abs(co[2])) * abs(c2 - c1) * abs(f2 - f1) + abs(co[3] * r3 * (c2 - c1) * (f2 - f1))
-        return ex, sc
+        return ex, sc, 0.0
     return None
 
 
@@ -366,10 +678,13 @@ def compare(c, io, mo, tol):
     op, method, p, lim, fex, ann = parse_case(c.line)
     es = exact_and_scale(op, lim, fex, ann)
     scale = es[1] if es else max(abs(tokf(a[0])), abs(tokf(b[0])))
-    nval = 2 if op == "named1d" else 1
-    if method in BOOST:
-        # external back end replaced by a stand-in rule in the model: values agree at the accuracy of the method
-        slack = dims(op) * acc_of(method) * scale + 1e-13 * scale
+    inner = inner_of(fex)
+    nval = 2
+    if method in BOOST or (inner and inner[0] in BOOST):
+        # external back end replaced by a stand-in rule in the model: values agree at the accuracy of the method on the smooth
+        # families; on the sharply peaked integrands of the 'corr' kinds the stand-in says nothing about the external code
+        if ann and ann[0] in CORR: return True, False, ""
+        slack = dims(op) * acc_of(method) * scale + 1e-13 * scale + 2 * (es[2] if es else 0.0)
         for k in range(nval):
             x, y = tokf(a[k]), tokf(b[k])
             if not (abs(x - y) <= slack): return False, False, f"value: impl {x!r} model {y!r} differ by more than {slack:.3g}"
@@ -404,13 +719,23 @@ def predicates(c, io):
         out.append((f"{op}:unknown-method", f"unknown method name {method} was accepted")); return out
     if not known: return out
     v = parse_vals(io)
-    val = v[0]; k0 = 2 if op == "named1d" else 1
+    val = v[0]; k0 = 2
     neval = v[k0]; mm = v[k0 + 2:]
-    if op == "named1d" and not (val == v[1] or (math.isnan(val) and math.isnan(v[1]))):
-        out.append(("named1d:delegation", f"Integrate(..,\"{method}\",{p}) = {val!r} but the back end it should delegate to gives {v[1]!r}"))
+    # the call equals the back end of the method name, nested level by level with the same method_parameter
+    if not (val == v[1] or (math.isnan(val) and math.isnan(v[1]))):
+        what = {"named1d": "Integrate", "nested2d": "Integrate_2D", "nested3d": "Integrate_3D", "spherical": "Integrate_3D (spherical)"}[op]
+        out.append((f"{op}:delegation", f"{what}(..,\"{method}\",{p}) = {val!r} but the back end of that name, called directly"
+                    + (" and nested level by level with the same parameter" if d > 1 else "") + f", gives {v[1]!r}"))
     if any(equal):
         if val != 0.0: out.append((f"{op}:equal-limits", f"equal limits on an axis but the result is {val!r}"))
         if equal[0] and neval != 0: out.append((f"{op}:equal-limits-calls", f"equal outer limits but the integrand was called {neval} times"))
+    # rules with a fixed number of points evaluate exactly that many per level
+    npts = (30 if p == 0 else p) if method == "Gauss-Legendre_2" else 30 if method == "Gauss-Legendre" else None
+    if npts is not None:
+        want = 0 if any(equal) else npts ** d
+        if neval != want:
+            out.append((f"{op}:sample-count", f"{method} with method_parameter {p} is a {npts}-point rule on each of the {d} level(s): {want} evaluations of the integrand, "
+                        f"but it was evaluated {neval} times"))
     # every argument stays inside the limits of its own axis
     if neval > 0:
         for k in range(d):
@@ -426,9 +751,13 @@ def predicates(c, io):
             if not (lo - sl <= mn and mx <= hi + sl):
                 out.append((f"{op}:argument-range", f"{name} ranged over [{mn!r},{mx!r}] but its own limits are [{lo!r},{hi!r}]"))
     es = exact_and_scale(op, lim, fex, ann)
-    if es and ann[0] not in ("1dcorr", "ndcorr") and not (method == "Gauss-Legendre_2" and 0 < p < 20):
-        ex, sc = es
-        slack = d * acc_of(method) * sc + 1e-13 * sc        # accuracy of the method per nesting level, relative to the integral of |f|; rounding of the closed form
+    inner = inner_of(fex)
+    small = lambda m, q: m == "Gauss-Legendre_2" and 0 < q < 20
+    if es and ann[0] not in CORR and not small(method, p) and not (inner and small(*inner)):
+        ex, sc, extra = es
+        # accuracy of the method per nesting level, relative to the integral of |f|; rounding of the closed form;
+        # accuracy of the inner method when the user's function is itself computed by a quadrature
+        slack = d * acc_of(method) * sc + 1e-13 * sc + extra
         if not (abs(val - ex) <= slack):
             out.append((f"{op}:value", f"{method}: result {val!r}, exact integral {ex!r} (difference {abs(val-ex):.3g} > {slack:.3g})"))
     return out
@@ -436,7 +765,7 @@ def predicates(c, io):
 
 def nontrivial(c, io):
     op, method, p, lim, fex, ann = parse_case(c.line)
-    if op == "named1d": return lim[0] >= lim[1] or p != 0 or method not in METHODS
+    if op == "named1d": return lim[0] >= lim[1] or p != 0 or method not in METHODS or "@" in fex
     iv = [(min(lim[2 * k], lim[2 * k + 1]), max(lim[2 * k], lim[2 * k + 1])) for k in range(dims(op))]
     disjoint = all(iv[i][1] < iv[j][0] or iv[j][1] < iv[i][0] for i in range(len(iv)) for j in range(i))
     if op == "spherical": return bool(ann) and (ann[0] == "sphd" or (lim[2], lim[3], lim[4]) != (-1.0, 1.0, 0.0))
